@@ -389,7 +389,7 @@ func (w *FetchResponseWriter) WriteRFC822Size(size int64) {
 // WriteInternalDate writes the message's internal date.
 func (w *FetchResponseWriter) WriteInternalDate(t time.Time) {
 	w.writeItemSep()
-	w.enc.Atom("INTERNALDATE").SP().String(t.Format(internal.DateTimeLayout))
+	w.enc.Atom("INTERNALDATE").SP().String(wholeMinuteZone(t).Format(internal.DateTimeLayout))
 }
 
 // WriteBodySection writes a body section.
@@ -538,7 +538,7 @@ func writeEnvelope(enc *imapwire.Encoder, envelope *imap.Envelope) {
 	if envelope.Date.IsZero() {
 		enc.NIL()
 	} else {
-		enc.String(envelope.Date.Format(envelopeDateLayout))
+		enc.String(wholeMinuteZone(envelope.Date).Format(envelopeDateLayout))
 	}
 	enc.SP()
 	writeNString(enc, encodeHeaderText(envelope.Subject))
@@ -585,6 +585,16 @@ func writeAddressList(enc *imapwire.Encoder, l []imap.Address) {
 		writeNString(enc, addr.Host)
 		enc.Special(')')
 	})
+}
+
+// wholeMinuteZone returns t in a zone which the date-time syntaxes can express:
+// they carry the zone as +hhmm, and Time.Format drops the seconds of a zone
+// offset while keeping the wall clock.
+func wholeMinuteZone(t time.Time) time.Time {
+	if _, offset := t.Zone(); offset%60 != 0 {
+		return t.UTC()
+	}
+	return t
 }
 
 // encodeHeaderText returns the form in which header text that clients decode
